@@ -29,6 +29,15 @@ def _on(e, obj):
     return f[2] if isinstance(f, tuple) and f[0] == "attr" and f[1] == obj else None
 
 
+def _opt_default(t, attr, value_when_none=False):
+    """t is `attr if attr is not None else <default>` in any of its spellings (conditions are canonical: ("ite", attr is None, default, attr));
+    returns the default term, or None when t has another form.  With value_when_none the historical operand order of the depth test
+    (default first) is accepted as well -- both denote the same value."""
+    if isinstance(t, tuple) and t[0] == "ite" and t[1] == ("cmp", ("Is",), (attr, fx.C(None))) and t[3] == attr:
+        return t[2]
+    return None
+
+
 def obligations():
     from gemclus.tree import Kauri
     fn = "gemclus.tree.kauri.Kauri.fit"
@@ -76,10 +85,10 @@ def obligations():
             if okg:
                 ml = b[2][1]
                 # the leaf budget is the user's max_leaves, and the NUMBER OF SAMPLES when none is given (nothing else caps the tree)
-                dflt = fx.strip(ml[3]) if ml[0] == "ite" and len(ml) > 3 else None
+                dflt = fx.strip(_opt_default(ml, _attr(SELF, "max_leaves")))
                 is_n = (isinstance(dflt, tuple) and ((dflt[0] == "item" and dflt[1][:1] == ("attr",) and dflt[1][2] == "shape" and dflt[2] == fx.C(0))
                                                       or (dflt[:1] == ("callres",) and dflt[2] == "len" and len(dflt[3]) == 1)))
-                okg = ml[0] == "ite" and ml[2] == _attr(SELF, "max_leaves") and is_n
+                okg = dflt is not None and is_n
                 queue = c[2][0][3][0]
         ob("loop guard: last_gain > 0 and n_leaves < max_leaves (n when None) and the queue is not empty", okg, {"guard": fx.show(g)[:300]})
         if not okg:
@@ -105,8 +114,8 @@ def obligations():
             size = dict(chs[0][4]).get("size")
             okc = (isinstance(a0, tuple) and a0[0] == "item" and a0[1][:1] == ("attr",) and a0[1][2] == "shape" and a0[2] == fx.C(1)
                    and dict(chs[0][4]).get("replace") == fx.C(False)
-                   and isinstance(size, tuple) and size[0] == "ite" and size[1] == ("cmp", ("IsNot",), (_attr(SELF, "max_features"), fx.C(None)))
-                   and size[3] == a0 and size[2][:1] == ("callres",) and size[2][2] == "min" and size[2][3][0] == a0)
+                   and isinstance(size, tuple) and size[0] == "ite" and size[1] == ("cmp", ("Is",), (_attr(SELF, "max_features"), fx.C(None)))
+                   and size[2] == a0 and size[3][:1] == ("callres",) and size[3][2] == "min" and size[3][3][0] == a0)
         ob("feature subset: choice(n_features, size=min(n_features, max(max_features, 1)) or n_features, replace=False)", okc,
            {"call": fx.show(("callres", chs[0][1], chs[0][2], chs[0][3], chs[0][4]))[:300] if chs else None})
         fb = [e for e in calls if e[2] == "find_best_split"]
@@ -206,7 +215,7 @@ def obligations():
             for c_, b_ in st.pc:
                 if c_[:2] == ("cmp", ("Lt",)) and c_[2][0] == ("binop", "Add", pd, fx.C(1)):
                     depth_ok, md = b_, c_[2][1]
-            okd = md is not None and md[0] == "ite" and md[3] == _attr(SELF, "max_depth")
+            okd = md is not None and _opt_default(md, _attr(SELF, "max_depth"), value_when_none=True) is not None
             ob("depth test: depth(parent) + 1 < max_depth (n when None)", okd)
         apps = [e for e in calls if _on(e, queue) == "append"]
         size_ok = {}
